@@ -12,11 +12,9 @@ open CM.Skel CM.SkelHS CM.Gen.C02
 /-- the forbidden-character set of SubjectQualifiesForCert is the model's -/
 theorem C02_tie_forbidden : forbiddenChars.toList = CM.Handshake.forbidden := by decide
 
-/-- the literals of the other tests are the model's: leading ".", "*." ; trailing "." ;
-contains "*" ; equals "*" ; one TrimSpace -/
-theorem C02_tie_qualifies_literals :
-    qualPrefixes = [".", "*."] ∧ qualSuffixes = ["."] ∧ qualContains = ["*"] ∧ qualEquals = ["*"] ∧
-      qualTrimSpaceCalls = 1 := by decide
+-- (the fact tie on the literals of the other tests of SubjectQualifiesForCert was retired: the whole
+-- function is tied now — CM/Tie/FnC02.lean, C02_tie_fn_SubjectQualifiesForCert — and the function tie stays
+-- proved under rewrites (early returns instead of one && chain) that changed the extracted literal lists)
 
 /-- checkIfCertShouldBeObtained: on-demand requirement, then the syntactic check, then the
 decision function if set (which then decides alone), otherwise the allow-list, enforced only
